@@ -27,6 +27,8 @@ func init() {
 				Body: func() { hist(d) }, NeedCounters: []string{"stale-ignored", "reply-delivered", "canceled-by-send", "protostate", "dup-ignored", "foreign-ignored", "recv-timed-out", "late-reply-after-timeout-ignored", "retry-disabled"}},
 			{Name: fmt.Sprintf("req-connection-loss-hist-D%d", d+1), Mode: "hist", Bound: 0, Reset: kit.ResetGlobals,
 				Body: func() { histFaults(d + 1) }, NeedCounters: []string{"stale-ignored", "reply-delivered", "retransmitted", "send-waited-for-a-peer", "abandoned-while-queued", "stale-after-queued-abandon-ignored", "given-up-after-loss-without-retry"}},
+			{Name: fmt.Sprintf("req-idwrap-hist-D%d", d), Mode: "hist", Bound: 0, Reset: kit.ResetNearIDWrap,
+				Body: func() { histWrap(d) }, NeedCounters: []string{"stale-ignored", "reply-delivered", "request-ids-wrapped"}},
 			{Name: "req-sched-send-recv-reply", Mode: "sched", Bound: b, Reset: kit.ResetGlobals, Body: schedSendRecvReply},
 			{Name: "req-sched-abandoned-recv-vs-fast-reply", Mode: "sched", Bound: b, Reset: kit.ResetGlobals, Body: schedFastReply},
 			{Name: "req-reply-before-transmission", Mode: "enum", Reset: kit.ResetGlobals, Body: replyBeforeTransmission, NeedCounters: []string{"guessed-reply-ignored"}},
@@ -156,6 +158,41 @@ func reply(id uint32, body string) []byte {
 type event struct {
 	name string
 	run  func()
+}
+
+// histWrap: the same histories with the socket's id counter (seeded from the clock) starting three
+// ids before it wraps: the ids of the third and later requests are past the wrap.  Every history
+// begins with two requests so that the rest of it plays on both sides of the wrap.
+func histWrap(depth int) {
+	w := setupCfg(2, -1, 0)
+	step := func(e event) {
+		kit.Tracef("event %s", e.name)
+		kit.Observe("%s", e.name)
+		e.run()
+		kit.Quiesce()
+		w.settle()
+		for _, m := range w.ctxs {
+			if m.cur != 0 && m.cur < 0x80000010 {
+				kit.Count("request-ids-wrapped")
+			}
+		}
+	}
+	for _, m := range w.ctxs {
+		m := m
+		step(event{"send:" + m.name, func() { w.doSend(m) }})
+	}
+	for d := 0; d < depth-1; d++ {
+		evs := w.events()
+		step(evs[kit.ChooseFree(len(evs))])
+	}
+	for _, m := range w.ctxs {
+		if m.recv == nil && !m.closed {
+			w.doRecv(m)
+		}
+	}
+	kit.Quiesce()
+	w.settle()
+	kit.Must("Socket.Close", func() { _ = w.sock.Close() })
 }
 
 func hist(depth int) {
